@@ -275,6 +275,23 @@ def manifest_region(run: Run):
     run.table("decl.module:package-segments-joined-with-a-dot", len(joins) >= 1 and all(c.node.node.value == "." for c in joins), group="decl.module:package")
 
 
+def imports_of_types_module(run: Run):
+    """The import lines of a types module (Proto.python_modules): every field type of every message of the file whose import is not the
+    file's own gets its `from <package> import <module>` line - a field rendered as `<module>.<Name>` (Address.__str__) finds its module bound."""
+    m = SchemaModel()
+    m.add_class("Proto", {"all_messages": "Map[Str,MessageType]", "meta": "Metadata"})
+    m.classes["MessageType"]["field_types"] = "Seq[AnyType]"
+    m.classes["AnyType"]["ident"] = "Address"
+    c = Contract("Proto.python_modules", source=("gapic/schema/api.py", "Proto.python_modules"), params={"self": "Proto"}, result="Seq[Import]",
+                 ensures=["forall(lambda msg: forall(lambda t: implies(t.ident.python_import != self.meta.address.python_import, "
+                          "t.ident.python_import in result), msg.field_types), self.all_messages.values())",
+                          "forall(lambda i: implies(i in result, i != self.meta.address.python_import), Import)"])
+    m.add_contract(c)
+    run.verify(m, c)
+    run.assume("Import values are compared as references in the solver (dataclass equality of equal-field Imports is identity of the abstract value); "
+               "`sorted` returns a sequence with exactly the members of its argument (order not modelled)")
+
+
 def tables(run: Run):
     """Finite tables read from the installed dependencies / the real module on every run."""
     import keyword, proto
@@ -299,6 +316,7 @@ def run(run: Run):
     # Address.module_alias / python_import / __str__ / imp.Import.__str__ are those of C12 and are proved here as well
     from props import C12
     C12.stage1(run)
+    imports_of_types_module(run)
     tables(run)
     field_region(run)
     enum_region(run)
